@@ -125,3 +125,104 @@ theorem decode1_eq_A (l : List Nat) (hl : Bytes l) : decode1 l = decode1A l := b
     repeat' split
     all_goals first | rfl | omega | (exfalso; omega) | simp_all
 end UvModel.Utf8
+
+/-! ### `decode1A` against the specification (Table 3-7) -/
+namespace UvModel.Utf8
+set_option linter.unusedSimpArgs false
+
+/-- 0 for a continuation byte, 1 otherwise -/
+def nbad (b : Nat) : Nat := if isCont b then 0 else 1
+
+theorem nbad_cases (b : Nat) :
+    (nbad b = 0 ∧ 128 ≤ b ∧ b ≤ 191) ∨ (nbad b = 1 ∧ (b < 128 ∨ b > 191)) := by
+  unfold nbad; split <;> omega
+
+theorem lo2_cases (a : Nat) : (a = 0xE0 ∧ lo2 a = 0xA0) ∨ (a = 0xF0 ∧ lo2 a = 0x90) ∨
+    (a ≠ 0xE0 ∧ a ≠ 0xF0 ∧ lo2 a = 0x80) := by
+  unfold lo2; repeat' split
+  all_goals omega
+theorem hi2_cases (a : Nat) : (a = 0xED ∧ hi2 a = 0x9F) ∨ (a = 0xF4 ∧ hi2 a = 0x8F) ∨
+    (a ≠ 0xED ∧ a ≠ 0xF4 ∧ hi2 a = 0xBF) := by
+  unfold hi2; repeat' split
+  all_goals omega
+
+theorem q64 (b : Nat) (h : b < 256) : b / 64 = 0 ∨ b / 64 = 1 ∨ b / 64 = 2 ∨ b / 64 = 3 := by omega
+
+/-- among the trailing bytes that the decoder reads for this lead byte, at most one is not a
+    continuation byte (explicit form; with a single trailing byte read this always holds) -/
+def FewBadX : List Nat → Prop
+  | a :: b :: c :: d :: _ =>
+    if a > 0xEF then nbad b + nbad c + nbad d ≤ 1 else if a > 0xDF then nbad b + nbad c ≤ 1 else True
+  | [a, b, c] => if a > 0xDF then nbad b + nbad c ≤ 1 else True
+  | _ => True
+
+/-- unfold both decoders, split the hypothesis `h : _ = some _`, substitute, split the goal, `omega` -/
+macro "crunch" h:ident : tactic => `(tactic|
+  (simp only [spec, decode1A, finishA, isCont] at $h:ident ⊢
+   repeat' split at $h:ident
+   all_goals (try omega)
+   all_goals (simp only [Option.some.injEq, Prod.mk.injEq, reduceCtorEq] at $h:ident)
+   all_goals (obtain ⟨rfl, rfl⟩ := $h:ident)
+   all_goals (repeat' split)
+   all_goals first | omega | (simp only [Prod.mk.injEq, Option.some.injEq, and_true, true_and] <;> omega) | (exfalso; omega)))
+
+theorem A_of_spec_1 (a v n : Nat) (ha : a < 256) (h : spec [a] = some (v, n)) :
+    decode1A [a] = (some v, n) := by
+  have := lo2_cases a; have := hi2_cases a
+  crunch h
+
+theorem A_of_spec_2 (a b v n : Nat) (ha : a < 256) (hb : b < 256) (h : spec [a, b] = some (v, n)) :
+    decode1A [a, b] = (some v, n) := by
+  have := lo2_cases a; have := hi2_cases a; have := q64 b hb
+  crunch h
+
+set_option maxHeartbeats 2000000 in
+theorem A_of_spec_3 (a b c v n : Nat) (ha : a < 256) (hb : b < 256) (hc : c < 256)
+    (h : spec [a, b, c] = some (v, n)) : decode1A [a, b, c] = (some v, n) := by
+  have := lo2_cases a; have := hi2_cases a; have := q64 b hb; have := q64 c hc
+  crunch h
+
+set_option maxHeartbeats 4000000 in
+theorem A_of_spec_4 (a b c d v n : Nat) (r : List Nat) (ha : a < 256) (hb : b < 256) (hc : c < 256)
+    (hd : d < 256) (h : spec (a :: b :: c :: d :: r) = some (v, n)) :
+    decode1A (a :: b :: c :: d :: r) = (some v, n) := by
+  have := lo2_cases a; have := hi2_cases a; have := q64 b hb; have := q64 c hc; have := q64 d hd
+  crunch h
+
+theorem spec_of_A_1 (a v n : Nat) (ha : a < 256) (h : decode1A [a] = (some v, n)) :
+    spec [a] = some (v, n) := by
+  have := lo2_cases a; have := hi2_cases a
+  crunch h
+
+theorem spec_of_A_2 (a b v n : Nat) (ha : a < 256) (hb : b < 256)
+    (h : decode1A [a, b] = (some v, n)) : spec [a, b] = some (v, n) := by
+  have := lo2_cases a; have := hi2_cases a; have := q64 b hb
+  crunch h
+
+set_option maxHeartbeats 4000000 in
+theorem spec_of_A_3 (a b c v n : Nat) (ha : a < 256) (hb : b < 256) (hc : c < 256)
+    (hf : FewBadX [a, b, c]) (h : decode1A [a, b, c] = (some v, n)) :
+    spec [a, b, c] = some (v, n) := by
+  have := nbad_cases b; have := nbad_cases c; have := lo2_cases a; have := hi2_cases a
+  have := q64 b hb; have := q64 c hc
+  simp only [FewBadX] at hf
+  split at hf
+  · crunch h
+  · crunch h
+
+set_option maxHeartbeats 8000000 in
+theorem spec_of_A_4 (a b c d v n : Nat) (r : List Nat) (ha : a < 256) (hb : b < 256) (hc : c < 256)
+    (hd : d < 256) (hf : FewBadX (a :: b :: c :: d :: r))
+    (h : decode1A (a :: b :: c :: d :: r) = (some v, n)) :
+    spec (a :: b :: c :: d :: r) = some (v, n) := by
+  have := nbad_cases b; have := nbad_cases c; have := nbad_cases d
+  have := lo2_cases a; have := hi2_cases a
+  have := q64 b hb; have := q64 c hc; have := q64 d hd
+  simp only [FewBadX] at hf
+  split at hf
+  · crunch h
+  · split at hf
+    · crunch h
+    · crunch h
+
+end UvModel.Utf8
